@@ -235,6 +235,9 @@ fn judge(argv: &[&str], stdin_k: usize, stdout: &Stdout, dir: &Path, canon: &Can
 		if !o.stderr.is_empty() {
 			return Some(("help-wrote-stderr".into(), o.brief()));
 		}
+		if *stdout == Stdout::DevFull {
+			return None; // nothing can be captured from /dev/full
+		}
 		let norm = |b: &[u8]| String::from_utf8_lossy(b).replace(proc::xt_bin(true).to_str().unwrap(), "xt").replace(proc::xt_bin(false).to_str().unwrap(), "xt").replace("\r\n", "\n");
 		let got = norm(&o.stdout);
 		if got != norm(&canon.short_help) && got != norm(&canon.long_help) && got != norm(&canon.version) {
